@@ -22,13 +22,15 @@ static int slot(void *o){
   sync_obj[nsync] = o; return nsync++;
 }
 void __vf_hb_acquire(void *o){ int s = slot(o); for (int u = 0; u < VF_NTHR; u++) if (sync_vc[s][u] > vc[__vf_cur][u]) vc[__vf_cur][u] = sync_vc[s][u]; }
-void __vf_hb_release(void *o){ int s = slot(o); vc[__vf_cur][__vf_cur]++; for (int u = 0; u < VF_NTHR; u++) sync_vc[s][u] = vc[__vf_cur][u]; }
-void __vf_hb_fork(int c){ vc[__vf_cur][__vf_cur]++; for (int u = 0; u < VF_NTHR; u++) vc[c][u] = vc[__vf_cur][u]; vc[c][c]++; }
+/* release: publish the current clock, THEN advance the own component, so that what the thread does after the release is not covered by it */
+void __vf_hb_release(void *o){ int s = slot(o); for (int u = 0; u < VF_NTHR; u++) sync_vc[s][u] = vc[__vf_cur][u]; vc[__vf_cur][__vf_cur]++; }
+void __vf_hb_fork(int c){ for (int u = 0; u < VF_NTHR; u++) vc[c][u] = vc[__vf_cur][u]; vc[c][c]++; vc[__vf_cur][__vf_cur]++; }
 void __vf_hb_join(int c){ for (int u = 0; u < VF_NTHR; u++) if (vc[c][u] > vc[__vf_cur][u]) vc[__vf_cur][u] = vc[c][u]; }
-void __vf_hb_track(void *p){ __CPROVER_assert(ntracked < NTRACK, "BOUND: tracked objects"); __CPROVER_assume(ntracked < NTRACK); tracked[ntracked++] = __CPROVER_POINTER_OBJECT(p); }
+void __vf_hb_track(void *p){ for (int i = 0; i < NTRACK; i++) if (i < ntracked && tracked[i] == __CPROVER_POINTER_OBJECT(p)) return;
+  __CPROVER_assert(ntracked < NTRACK, "BOUND: tracked objects"); __CPROVER_assume(ntracked < NTRACK); tracked[ntracked++] = __CPROVER_POINTER_OBJECT(p); }
+void __vf_hb_init(void){ w_init = 1; wobj = nondet_ulong(); woff = nondet_ulong(); for (int u = 0; u < VF_NTHR; u++) vc[u][u] = 1; }   /* called by the scheduler before the first step */
 /* kind: 0 read, 1 write, 2 atomic read, 3 atomic write */
-void __vf_acc(void *p, uint64_t n, uint32_t kind){
-  if (!w_init) { w_init = 1; wobj = nondet_ulong(); woff = nondet_ulong(); for (int u = 0; u < VF_NTHR; u++) vc[u][u] = 1; }
+void __vf_acc(void *p, size_t n, int kind){
   if (kind >= 2) return;                               /* atomics synchronise (handled by __vf_atomic_op) */
   if (__CPROVER_POINTER_OBJECT(p) != wobj) return;
   _Bool tr = 0; for (int i = 0; i < NTRACK; i++) if (i < ntracked && tracked[i] == wobj) tr = 1;
@@ -36,6 +38,7 @@ void __vf_acc(void *p, uint64_t n, uint32_t kind){
   size_t off = __CPROVER_POINTER_OFFSET(p);
   if (!(off <= woff && woff < off + n)) return;
   int t = __vf_cur;
+  if (lw_thr >= 0 && lw_thr != t) __CPROVER_assert(0, "REACH: the watched byte is accessed by two different threads");   /* vacuity guard of the monitor */
   if (lw_thr >= 0 && lw_thr != t) __CPROVER_assert(lw_clk <= vc[t][lw_thr], "property: C15 data race: access to a location last written by another thread without synchronisation in between");
   if (kind == 1) {
     for (int u = 0; u < VF_NTHR; u++) if (u != t && lr_valid[u]) __CPROVER_assert(lr_clk[u] <= vc[t][u], "property: C15 data race: write to a location read by another thread without synchronisation in between");
